@@ -6,6 +6,7 @@ node straight from the Python AST. We build a CFG, check it, and return a
 """
 
 import ast
+import copy
 import sys
 from dataclasses import dataclass, replace
 from typing import TYPE_CHECKING, ClassVar, cast
@@ -219,7 +220,17 @@ def check_nested_func_def(
             func = ParsedFunctionDef(def_id, func_def.name, func_def, func_ty, None)
             DEF_STORE.register_def(func, None)
             ENGINE.parsed[def_id] = func
-            globals.f_locals[func_def.name] = GuppyDefinition(func)
+            # Bind the name in a copy of the scope that is only used to check the body.
+            # `ctx.globals.f_locals` is the `f_locals` of the frame in which the
+            # enclosing function was defined (for module-level functions: the user's
+            # module namespace), so writing to it would leak the nested function into
+            # the user's scope and shadow (or overwrite) a global of the same name in
+            # every later `check`/`compile` of the session.
+            globals = copy.copy(ctx.globals)
+            globals.f_locals = {
+                **ctx.globals.f_locals,
+                func_def.name: GuppyDefinition(func),
+            }
         else:
             # Otherwise, we treat it like a local name
             inputs.append(Variable(func_def.name, func_def.ty, func_def))
